@@ -414,6 +414,21 @@ func intWitness(c *Ctx, bits uint, w int, nLattice int) (*saferith.Int, string, 
 
 const nLat = 14 // lattice + 2 random values before the out-of-range witnesses
 
+// wShiftN: the extra witness of the systems that tie a Paillier plaintext to a second relation (enc, logstar, encelg):
+// the statement encrypts an in-range x0, the prover runs the ordinary algorithm with x0 + N. Every Paillier equation
+// still holds (the plaintext only counts mod N), only the range check on the response refuses. For nth: the statement
+// is NOT an N-th residue (R = Enc(1)); the key owner takes an N-th root mod N only and proves with it.
+const wShiftN = 1000
+
+var zkShiftSystems = map[string]bool{"enc": true, "logstar": true, "encelg": true, "nth": true}
+
+// shiftedWitness: (x0 to encrypt, x0 + N to prove with)
+func shiftedWitness(c *Ctx, kp *zkKey) (*saferith.Int, *saferith.Int, string) {
+	x0 := new(big.Int).Rand(c.Rng, pow2(params.L))
+	x := new(big.Int).Add(x0, kp.pk.N().Big())
+	return sInt(x0), sInt(x), "x0+N with x0 random in range (statement encrypts x0)"
+}
+
 var zkSystems = []*zkSys{sysSch(), sysLog(), sysElog(), sysEnc(), sysLogstar(), sysAffg(), sysAffp(), sysEncelg(), sysDec(), sysMul(), sysMulstar(), sysNth(), sysFac(), sysPrm(), sysMod()}
 
 func sysSch() *zkSys {
@@ -558,8 +573,13 @@ func sysEnc() *zkSys {
 	}
 	return &zkSys{name: "enc", comm: []string{"S", "A", "C"}, cost: 2,
 		make: func(c *Ctx, kp, kv *zkKey, w int) (zrec, func([]TV) zrec, string, string) {
-			k, d, class := intWitness(c, params.L, w, nLat)
-			K, rho := kp.pk.Enc(k)
+			k, d, class := intWitness(c, params.L, w%wShiftN, nLat)
+			kEnc := k
+			if w == wShiftN {
+				kEnc, k, d = shiftedWitness(c, kp)
+				class = "range"
+			}
+			K, rho := kp.pk.Enc(kEnc)
 			pub := zkenc.Public{K: K, Prover: kp.pk, Aux: kv.ped}
 			pubRec := zrec{"K": vCt(K), "Prover": vPk(kp.pk), "Aux": vPed(kv.ped)}
 			prove := func(prefix []TV) zrec {
@@ -594,8 +614,13 @@ func sysLogstar() *zkSys {
 	}
 	return &zkSys{name: "logstar", comm: []string{"S", "A", "Y", "D"}, cost: 2,
 		make: func(c *Ctx, kp, kv *zkKey, w int) (zrec, func([]TV) zrec, string, string) {
-			x, d, class := intWitness(c, params.L, w, nLat)
-			C, rho := kp.pk.Enc(x)
+			x, d, class := intWitness(c, params.L, w%wShiftN, nLat)
+			xEnc := x
+			if w == wShiftN {
+				xEnc, x, d = shiftedWitness(c, kp)
+				class = "range"
+			}
+			C, rho := kp.pk.Enc(xEnc)
 			var Gp curve.Point
 			gV := zv{"k": "pt", "v": nil}
 			if w%3 == 2 {
@@ -756,10 +781,15 @@ func sysEncelg() *zkSys {
 	}
 	return &zkSys{name: "encelg", comm: []string{"S", "D", "Y", "Z", "T"}, cost: 2,
 		make: func(c *Ctx, kp, kv *zkKey, w int) (zrec, func([]TV) zrec, string, string) {
-			x, d, class := intWitness(c, params.L, w, nLat)
+			x, d, class := intWitness(c, params.L, w%wShiftN, nLat)
+			xEnc := x
+			if w == wShiftN {
+				xEnc, x, d = shiftedWitness(c, kp)
+				class = "range"
+			}
 			a, da := latticeScalar(c, (w/2)%6, true)
 			b, db := latticeScalar(c, (w/3)%6, true)
-			C, rho := kp.pk.Enc(x)
+			C, rho := kp.pk.Enc(xEnc)
 			abx := zkGroup.NewScalar().Set(a).Mul(b).Add(scalarOfInt(x))
 			pub := zkencelg.Public{C: C, A: a.ActOnBase(), B: b.ActOnBase(), X: abx.ActOnBase(), Prover: kp.pk, Aux: kv.ped}
 			pubRec := zrec{"C": vCt(C), "A": vPt(pub.A), "B": vPt(pub.B), "X": vPt(pub.X), "Prover": vPk(kp.pk), "Aux": vPed(kv.ped)}
@@ -941,13 +971,24 @@ func sysNth() *zkSys {
 				rho = sample.UnitModN(c.Rng, N)
 			}
 			R := kp.pk.ModulusSquared().Exp(rho, N.Nat())
+			class := ""
+			if w == wShiftN {
+				// R = Enc(1; rho0) is no N-th residue mod N^2; rho = (R mod N)^(1/N mod phi) is an N-th root of R mod N only
+				one := new(saferith.Int).SetUint64(1)
+				ct, _ := kp.pk.Enc(one)
+				R = ct.Nat()
+				phi := kp.sk.Phi().Big()
+				nInv := new(big.Int).ModInverse(N.Big(), phi)
+				rb := new(big.Int).Exp(new(big.Int).Mod(R.Big(), N.Big()), nInv, N.Big())
+				rho, d, class = natOfBig(rb), "N-th root mod N of the non-residue Enc(1)", "false-statement"
+			}
 			pub := zknth.Public{N: kp.pk, R: R}
 			pubRec := zrec{"N": vPk(kp.pk), "R": vNat(R)}
 			prove := func(prefix []TV) zrec {
 				p := zknth.NewProof(hashOf(prefix), pub, zknth.Private{Rho: rho})
 				return zrec{"A": vNat(p.A), "Z": vNat(p.Z)}
 			}
-			return pubRec, prove, "rho=" + d, ""
+			return pubRec, prove, "rho=" + d, class
 		},
 		verify: func(h *hash.Hash, pub, r zrec) bool { return prfOf(r).Verify(h, pubOf(pub)) },
 		wire:   func(r zrec) ([]byte, error) { return cbor.Marshal(prfOf(r)) },
@@ -1807,6 +1848,15 @@ func runZkSystem(c *zkRun, env *zkEnv, s *zkSys, thorough bool) {
 			class = "honest"
 		}
 		c.emitZk(s, zkCase{class: class, desc: "honest prover, " + desc, prefix: prefix, pub: pub, prf: prove(prefix)})
+	}
+	// 1b. the prover that shifts its witness by N / proves a non-residue with a root mod N (see wShiftN)
+	if zkShiftSystems[s.name] {
+		for i := 0; i < 2; i++ {
+			kp, kv := env.pair(i)
+			prefix := zkPrefix(c.Ctx, i)
+			pub, prove, desc, class := s.make(c.Ctx, kp, kv, wShiftN)
+			c.emitZk(s, zkCase{class: class, desc: "ordinary prover algorithm, " + desc, prefix: prefix, pub: pub, prf: prove(prefix)})
+		}
 	}
 	// 2. perturbations of two base cases with RANDOM witnesses (a proof for a degenerate witness such as x = 0 or
 	//    ρ = 1 does not depend on the challenge and would verify in any context)
